@@ -80,7 +80,17 @@ class Key(PathElement):
 
   def __lt__(self, other: PathElement) -> bool:
     if type(self) is type(other):
-      return self.key < other.key
+      if type(self.key) is type(other.key):
+        try:
+          return self.key < other.key
+        except TypeError:
+          pass  # Keys of this type have no order; fall back to their repr.
+      # Keys can be of any (hashable) type; order keys of different types by
+      # type name, so that paths of a dict with mixed keys can be sorted.
+      return (str(type(self.key)), repr(self.key)) < (
+          str(type(other.key)),
+          repr(other.key),
+      )
     else:
       return super().__lt__(other)
 
